@@ -155,6 +155,14 @@ def run_shard(ctx, spec):
             prog = gen.valid_program(random.Random(rng.random()), max_files=4, type_depth=3)
         style = rng.choice(["plain", "dense", "random", "lines"])
         texts = printer.print_program(prog, [printer.Layout(random.Random(rng.random()), style) for _ in prog.files])
+        blank_at = None
+        if rng.random() < 0.2:
+            # a file that holds nothing, anywhere among the others: walking it presents the file and nothing else, and the files
+            # after it are walked as if it were not there
+            blank_at = rng.randrange(len(texts) + 1)
+            texts = texts[:blank_at] + [rng.choice(["", "\n", " \t\n\n", "// nothing\n"])] + texts[blank_at:]
+            ctx.stats["programs_with_blank_file"] += 1
+        prog.blank_at = blank_at
         progs.append((prog, texts))
         reqs.append({"op": "compile", "files": texts, "want": ["ast", "visit", "codes"]})
     for k in range(0, len(reqs), 50):
@@ -176,14 +184,26 @@ def judge(ctx, prog, texts, r):
         ctx.stats["skipped_program_with_diagnostics"] += 1   # C02 decides those
         return
     expected = expect.exp_program(prog)
+    mfiles = list(prog.files)
+    blank_at = getattr(prog, "blank_at", None)
+    if blank_at is not None:
+        expected = expected[:blank_at] + [{"contents": []}] + expected[blank_at:]
+        mfiles = mfiles[:blank_at] + [None] + mfiles[blank_at:]
     all_defs_elsewhere = {}
     for fi, f in enumerate(r["files"]):
         for t in reference_trace(f):
             if t[0] not in ("file", "type_ref", "module"):
                 all_defs_elsewhere.setdefault((t[0], t[1]), fi)
-    for fi, (f, trace, mf) in enumerate(zip(r["files"], r["visit"], prog.files)):
+    if len(r["files"]) != len(mfiles):
+        ctx.violate("visitor-file-count", "%d files compiled, %d given" % (len(r["files"]), len(mfiles)), replay)
+        return
+    for fi, (f, trace, mf) in enumerate(zip(r["files"], r["visit"], mfiles)):
         ctx.stats["files_walked"] += 1
         ctx.stats["callbacks"] += len(trace)
+        if mf is None:
+            if trace != [["file", f["path"]]]:
+                ctx.violate("visitor-blank-file", "file %d holds nothing, the visitor presented %r" % (fi, trace[:4]), replay)
+            continue
         ref = reference_trace(f)
         ents = [(t[0], t[1]) for t in trace if t[0] not in ("file", "type_ref", "module")]
         # (1) against the model: nothing skipped, nothing twice, nothing foreign, source order
